@@ -261,7 +261,7 @@ impl Check for C12 {
         out
     }
     fn rule() -> &'static str {
-        "Each run draws a composable pair (f,g) of small well-formed diagrams (<= ~6 nodes, <= 3 hyperedges; non-monogamous, cyclic, isolated nodes, zero-arity operations included), two object lists and a functor spec: object map generator -> list of length 1 / 0-1 / 0-3 over 1-3 target labels, operation map per label one of {single operation, composite of two operations, spider-only, empty-when-possible}. A harness-defined strict::Functor<K,..> generic in the device applies it on sim/control, vec and 1-2 perturbed schedules; the lax trait runs through dyn_functor on the Vec device. Oracle: F(f) isomorphic to the reference substitution (node -> list, hyperedge -> image glued along expanded ports), hence the type; F(f;g) ≅ Ff;Fg, F(f⊗g) ≅ Ff⊗Fg, F(id) ≅ id, F(twist) ≅ twist, F(f†) ≅ (Ff)†, Identity functor ≅ argument. Non-trivial iff f has a node; distinct = distinct (workload fingerprint, device decision fingerprint)."
+        "Each run draws a composable pair (f,g) of small well-formed diagrams (<= ~6 nodes, <= 3 hyperedges; non-monogamous, cyclic, isolated nodes, zero-arity operations included), two object lists and a functor spec: object map generator -> list of length 1 / 0-1 / 0-3 over 1-3 target labels, operation map per label one of {single operation, composite of two operations, spider-only, empty-when-possible}. A harness-defined strict::Functor<K,..> generic in the device applies it on sim/control, vec and 1-2 perturbed schedules; the lax trait runs through dyn_functor on the Vec device, once with strict images and argument and once with images and argument that still carry pending unifications (every hyperedge on fresh nodes unified with the original ones, in two node orders). Oracle: F(f) isomorphic to the reference substitution (node -> list, hyperedge -> image glued along expanded ports), hence the type; F(f;g) ≅ Ff;Fg, F(f⊗g) ≅ Ff⊗Fg, F(id) ≅ id, F(twist) ≅ twist, F(f†) ≅ (Ff)†, Identity functor ≅ argument. Non-trivial iff f has a node; distinct = distinct (workload fingerprint, device decision fingerprint)."
     }
     fn assumptions() -> Vec<&'static str> {
         vec![
